@@ -146,7 +146,8 @@ def _run_deductive(c, case_id, case, cfg, out):
         out["unsupported"].append("run deadline reached before this case started")
         return
     records, stats, interp = explore(c.body, case, timeout_ms=timeout_ms,
-                                     max_paths=c.max_paths or cfg["max_paths"], deadline=deadline, tier=_W["tier"])
+                                     max_paths=c.max_paths or cfg["max_paths"], deadline=deadline, tier=_W["tier"],
+                                     fallback=not c.canary)
     out["paths"] = len(records)
     out["solver_time"] = stats.solver_time
     out["queries"] = stats.queries
